@@ -384,11 +384,16 @@ class PDDLWriter:
             self.pddl_keywords |= PDDL_PLUS_KEYWORDS
         if len(self.problem.trajectory_constraints) > 0:
             self.pddl_keywords |= PDDL3_KEYWORDS
-        if any(
-            map(
-                lambda action: isinstance(action, up.model.action.DurativeAction),
-                self.problem.actions,
+        # durative actions are written with ":duration", "at start", "over all", ...,
+        # timed effects as "(at <time> ...)" in the :init
+        if (
+            any(
+                map(
+                    lambda action: isinstance(action, up.model.action.DurativeAction),
+                    self.problem.actions,
+                )
             )
+            or len(self.problem.timed_effects) > 0
         ):
             self.pddl_keywords |= TEMPORAL_PDDL_KEYWORDS
         if isinstance(self.problem, ContingentProblem):
